@@ -397,7 +397,7 @@ fn classify(schema: &Value, text: &str, accepted_prefix: &[u8], what: &str) -> S
 }
 
 pub fn run(ctx: &mut Ctx) {
-    let n_cases = ctx.pick(3000, 2000000);
+    let n_cases = ctx.pick(12000, 2000000);
     for idx in 0..n_cases {
         if !ctx.mine(idx) {
             continue;
